@@ -55,6 +55,9 @@ type w2state struct {
 	inflight int
 	calls    []*peerCall
 	opOf     map[*peerCall]*PeerOp
+	// a "wait" with Sync holds back the rest of the script until it is over
+	// (without Sync it only makes sure the run lasts that long)
+	blockUntil time.Duration
 }
 
 func (s *Sim) peerFileHash(f *PeerFile) string {
@@ -104,6 +107,9 @@ func (s *Sim) runW2() {
 		}
 		op := &sc.Peer[st.next]
 		if op.Sync && st.inflight > 0 {
+			return nil
+		}
+		if time.Since(s.epoch) < st.blockUntil {
 			return nil
 		}
 		if st.inflight >= sc.MaxInFlight {
@@ -224,6 +230,9 @@ func (s *Sim) issuePeerOp(st *w2state) {
 		// nothing to do: it only becomes enabled once the receiver is idle
 	case "wait":
 		s.addEnv(&envAction{Kind: "noop", At: time.Since(s.epoch) + op.Dur})
+		if op.Sync {
+			st.blockUntil = time.Since(s.epoch) + op.Dur
+		}
 	case "crash":
 		s.crashReceiver("peer-script", s.sc.DownTime)
 	case "age":
